@@ -104,6 +104,8 @@ where
             h = winv * i as f64;
             i += 1;
             if h >= qmax {
+                #[cfg(feature = "verif_hooks")]
+                crate::verif::tick(crate::verif::Event::PmhPruneBreak);
                 break;
             }
             h += winv * self.exp01.sample(&mut rng);
@@ -114,6 +116,12 @@ where
     /// return final signature.
     pub fn get_signature(&self) -> &Vec<D> {
         &self.signature
+    }
+
+    /// verification hook : per position register values
+    #[cfg(feature = "verif_hooks")]
+    pub fn verif_registers(&self) -> Vec<f64> {
+        (0..self.m).map(|k| self.maxvaluetracker.get_value(k)).collect()
     }
 
     /// hash data when given by an iterable WeightedSet
@@ -268,6 +276,8 @@ where
                 let (key, winv, rng) = &mut self.to_be_processed[j];
                 let mut h = (*winv) * (i - 1) as f64;
                 if h < self.maxvaluetracker.get_max_value() {
+                    #[cfg(feature = "verif_hooks")]
+                    crate::verif::tick(crate::verif::Event::Pmh3aSecondPass);
                     h += (*winv) * self.exp01.sample(rng);
                     let k = unif0m.sample(rng);
                     if h < self.maxvaluetracker.get_value(k) {
@@ -346,6 +356,8 @@ where
                 let (key, winv, rng) = &mut self.to_be_processed[j];
                 let mut h = (*winv) * (i - 1) as f64;
                 if h < self.maxvaluetracker.get_max_value() {
+                    #[cfg(feature = "verif_hooks")]
+                    crate::verif::tick(crate::verif::Event::Pmh3aSecondPass);
                     h += (*winv) * self.exp01.sample(rng);
                     let k = unif0m.sample(rng);
                     if h < self.maxvaluetracker.get_value(k) {
@@ -368,6 +380,12 @@ where
     /// return final signature.
     pub fn get_signature(&self) -> &Vec<D> {
         &self.signature
+    }
+
+    /// verification hook : per position register values
+    #[cfg(feature = "verif_hooks")]
+    pub fn verif_registers(&self) -> Vec<f64> {
+        (0..self.m).map(|k| self.maxvaluetracker.get_value(k)).collect()
     }
 } // end of ProbMinHash3a
 
